@@ -33,6 +33,10 @@ func (u *Unit) lockInvFor(t types.Type, field string) *LockInv {
 // lockOp handles x.mu.Lock()/Unlock()/RLock()/RUnlock().
 func (u *Unit) lockOp(ev *Ev, muExpr ast.Expr, op string, at *ast.CallExpr) {
 	st := ev.st
+	if id, ok := ast.Unparen(muExpr).(*ast.Ident); ok {
+		u.globalLockOp(ev, id, op, at)
+		return
+	}
 	sel, ok := ast.Unparen(muExpr).(*ast.SelectorExpr)
 	if !ok {
 		return
@@ -102,6 +106,76 @@ func (u *Unit) lockOp(ev *Ev, muExpr ast.Expr, op string, at *ast.CallExpr) {
 }
 
 func (u *Unit) firstLockDone(st *State, key string) bool { return false }
+
+// globalLockOp: a package-level mutex (`lockinv global mu` + guarded_by): at Lock/RLock everything it guards is forgotten
+// (other goroutines may have changed it since this one last held the lock) and the invariant is assumed; at Unlock the
+// invariant is asserted. Same monitor rule as for mutex fields.
+func (u *Unit) globalLockOp(ev *Ev, id *ast.Ident, op string, at *ast.CallExpr) {
+	st := ev.st
+	obj := ev.info().ObjectOf(id)
+	v, ok := obj.(*types.Var)
+	if !ok || v.Pkg() == nil || v.Parent() != v.Pkg().Scope() {
+		return
+	}
+	k := v.Pkg().Path() + ".<global>." + v.Name()
+	li := u.eng.cs.LockInvs[k]
+	key := "global:" + k
+	switch op {
+	case "Lock", "RLock":
+		st.held[key] = true
+		if op == "RLock" {
+			st.held[key+"#R"] = true
+		} else {
+			delete(st.held, key+"#R")
+		}
+		if li == nil {
+			return
+		}
+		u.eng.noteMeta(u, "monitor rule: sync.Mutex/RWMutex give mutual exclusion (trusted); each critical section is verified as assume-invariant-at-Lock / assert-invariant-at-Unlock")
+		sev := u.specEv(st, at.Pos(), "lock global "+li.Field)
+		sev.pkg = u.eng.pkgs[li.PkgPath]
+		var mods []Clause
+		for _, g := range li.Guarded {
+			txt := g
+			if gp := u.eng.pkgs[li.PkgPath]; gp != nil && gp.Types != nil {
+				if o := gp.Types.Scope().Lookup(g); o != nil {
+					if _, isMap := o.Type().Underlying().(*types.Map); isMap {
+						txt = "mapof(" + g + ")" // the contents of the map, not the variable
+					}
+				}
+			}
+			if e, err := parseExprAt(txt, "lockinv", 0); err == nil {
+				mods = append(mods, Clause{Text: txt, Expr: e})
+			}
+		}
+		u.havocModifies(sev, mods, nil)
+		for _, inv := range li.Invs {
+			st.assume(sev.expr(inv.Expr).T)
+		}
+		if u.c != nil && u.c.Flags["old_at_lock"] && !u.oldRebased {
+			u.oldRebased = true
+			lets := u.entry.lets
+			u.entry = st.clone()
+			for k, v := range lets {
+				if _, ok := u.entry.lets[k]; !ok {
+					u.entry.lets[k] = v
+				}
+			}
+			u.eng.noteMeta(u, "old() in "+u.name+" refers to the state at lock acquisition (linearisation point inside the critical section)")
+		}
+	case "Unlock", "RUnlock":
+		if li != nil && op == "Unlock" {
+			sev := u.specEv(st, at.Pos(), "unlock global "+li.Field)
+			sev.pkg = u.eng.pkgs[li.PkgPath]
+			for i, inv := range li.Invs {
+				g := sev.expr(inv.Expr)
+				u.emit(st, fmt.Sprintf("lockinv@unlock/%s#%d", u.callOrdinal(at, "Unlock"), i), g.T, inv.Text)
+			}
+		}
+		delete(st.held, key)
+		delete(st.held, key+"#R")
+	}
+}
 
 // checkGuarded emits an obligation when a guarded field is accessed without its lock.
 func (u *Unit) checkGuarded(ev *Ev, root types.Type, path, ref, what string) {
